@@ -2,7 +2,7 @@ CONSTANTS
  Confs <- MCConfs
  FixWaitErr = TRUE
  Reduce = FALSE
- MCShapes = {"dup", "idx2", "nested", "art", "artidx", "dtag", "bentry", "docker"}
+ MCShapes = {"dup", "idx2", "nested", "art", "artidx", "dtag", "bentry", "docker", "dupentry", "inlinebad", "sha512", "diamond"}
  MCPairs = {"tworeg", "samereg", "samerepo", "reg2dir", "dir2reg", "dir2dir"}
  MCOpts <- MCOptsCore
  MCFeats <- MCFeatsCore
